@@ -244,9 +244,15 @@ impl CrashSys {
                 });
             }
         }
+        // Two recovered regions with one name: the statement promises name, length and bytes
+        // for regions *not modified* since the flush, so this is judged only when the name is
+        // that of such a region (it could then no longer be found under its name). Among
+        // regions that were removed / renamed since the flush (remove a; rename b -> a; crash
+        // with only b's slot written back) it is outside what C05 states.
+        let untouched_names: HashSet<&String> = self.s_flush.iter().filter(|(id, _)| !self.touched.contains(id)).map(|(_, (n, _))| n).collect();
         let mut names = HashSet::new();
         for r in &rec {
-            if !names.insert(&r.name) {
+            if !names.insert(&r.name) && untouched_names.contains(&r.name) {
                 viols.push(Violation {
                     property: "C05".into(),
                     signature: sig("duplicate_name"),
@@ -287,59 +293,85 @@ impl CrashSys {
         //     flush-kind call or at the beginning of the interrupted one
         if env_b && self.flushed_once {
             let mut explained: HashSet<&str> = HashSet::new();
-            let ids: BTreeSet<u32> = self
+            let ids: Vec<u32> = self
                 .s_done
                 .iter()
                 .flat_map(|s| s.keys())
                 .chain(s_begin.iter().flat_map(|s| s.keys()))
                 .copied()
+                .collect::<BTreeSet<u32>>()
+                .into_iter()
                 .collect();
-            for id in ids {
-                let cands: Vec<Option<&(String, Vec<u8>)>> = {
-                    let mut c: Vec<Option<&(String, Vec<u8>)>> = self.s_done.iter().map(|s| s.get(&id)).collect();
+            // candidate states per identity: at each completed flush-kind call since the
+            // last full flush, and at the beginning of the interrupted one
+            let cands: Vec<Vec<Option<&(String, Vec<u8>)>>> = ids
+                .iter()
+                .map(|id| {
+                    let mut c: Vec<Option<&(String, Vec<u8>)>> = self.s_done.iter().map(|s| s.get(id)).collect();
                     if let Some(s) = s_begin {
-                        c.push(s.get(&id));
+                        c.push(s.get(id));
                     }
                     c
-                };
-                if self.overwritten.contains(&id) {
-                    for (n, _) in cands.iter().flatten() {
-                        explained.insert(n.as_str());
-                    }
-                    continue;
-                }
-                let matches = |c: &Option<&(String, Vec<u8>)>| -> bool {
-                    match c {
-                        // absent in that state: no recovered region may carry a name this
-                        // identity has in the other candidate state
-                        None => cands.iter().flatten().all(|(n, _)| !rec.iter().any(|r| &r.name == n)),
-                        Some((n, b)) => rec.iter().any(|r| &r.name == n && &r.bytes == b)
-                            && cands.iter().flatten().filter(|(m, _)| m != n).all(|(m, _)| !rec.iter().any(|r| &r.name == m)),
-                    }
-                };
-                for (n, _) in cands.iter().flatten() {
+                })
+                .collect();
+            for c in &cands {
+                for (n, _) in c.iter().flatten() {
                     explained.insert(n.as_str());
                 }
-                if !cands.iter().any(matches) {
-                    let show = |c: &Option<&(String, Vec<u8>)>| match c {
-                        None => "absent".to_string(),
-                        Some((n, b)) => format!("'{n}' with {} bytes", b.len()),
-                    };
-                    let got: Vec<String> = cands
-                        .iter()
-                        .flatten()
-                        .filter_map(|(n, _)| rec.iter().find(|r| &r.name == n))
-                        .map(|r| format!("'{}' with {} bytes", r.name, r.len))
-                        .collect();
-                    viols.push(Violation {
-                        property: "C05".into(),
-                        signature: sig("neither_before_nor_after"),
-                        detail: format!(
-                            "region recovered as {got:?}; allowed: {} (at a completed flush / when the interrupted flush began)",
-                            cands.iter().map(show).collect::<Vec<_>>().join(" | ")
-                        ),
-                    });
+            }
+            // A name can belong to two identities (a region removed and created again before
+            // the flush), so the recovered regions are matched to identities jointly: every
+            // recovered region with a known name must be some identity in one of its
+            // candidate states (any bytes for an identity that was overwritten in place), no
+            // identity explains two regions, and every identity left over must have been
+            // absent in one of its candidate states.
+            let known: Vec<&Recovered> = rec.iter().filter(|r| explained.contains(r.name.as_str())).collect();
+            let can_be = |i: usize, r: &Recovered| -> bool {
+                let free = self.overwritten.contains(&ids[i]);
+                cands[i].iter().flatten().any(|(n, b)| n == &r.name && (free || b == &r.bytes))
+            };
+            let may_be_absent = |i: usize| -> bool { cands[i].iter().any(|c| c.is_none()) };
+            fn assign(j: usize, known: &[&Recovered], used: &mut Vec<bool>, can_be: &dyn Fn(usize, &Recovered) -> bool, may_be_absent: &dyn Fn(usize) -> bool) -> bool {
+                if j == known.len() {
+                    return (0..used.len()).all(|i| used[i] || may_be_absent(i));
                 }
+                for i in 0..used.len() {
+                    if !used[i] && can_be(i, known[j]) {
+                        used[i] = true;
+                        if assign(j + 1, known, used, can_be, may_be_absent) {
+                            return true;
+                        }
+                        used[i] = false;
+                    }
+                }
+                false
+            }
+            let mut used = vec![false; ids.len()];
+            if !assign(0, &known, &mut used, &can_be, &may_be_absent) {
+                let show = |c: &Option<&(String, Vec<u8>)>| match c {
+                    None => "absent".to_string(),
+                    Some((n, b)) => format!("'{n}' with {} bytes", b.len()),
+                };
+                let got: Vec<String> = known.iter().map(|r| format!("'{}' with {} bytes", r.name, r.len)).collect();
+                let allowed: Vec<String> = cands
+                    .iter()
+                    .enumerate()
+                    .map(|(i, c)| {
+                        format!(
+                            "[{}{}]",
+                            c.iter().map(show).collect::<BTreeSet<_>>().into_iter().collect::<Vec<_>>().join(" | "),
+                            if self.overwritten.contains(&ids[i]) { " (bytes free: overwritten in place)" } else { "" }
+                        )
+                    })
+                    .collect();
+                viols.push(Violation {
+                    property: "C05".into(),
+                    signature: sig("neither_before_nor_after"),
+                    detail: format!(
+                        "recovered regions {got:?} cannot be matched to the regions' states at a completed flush / when the interrupted flush began; per region: {}",
+                        allowed.join(" ")
+                    ),
+                });
             }
             for r in &rec {
                 if !explained.contains(r.name.as_str()) {
@@ -751,6 +783,11 @@ impl Sys for CrashSys {
 
     fn abort_verdict(_cfg: &RawCfg, op: &RawOp) -> (String, String) {
         ("C05".into(), format!("{}||process_abort", op.kind()))
+    }
+    /// One step opens every crash image of the operation (hundreds to thousands of real
+    /// `Database::open` calls): the watchdog must not mistake that for a hang.
+    fn op_timeout_ms(_cfg: &RawCfg) -> u64 {
+        900_000
     }
 }
 
